@@ -129,10 +129,29 @@ def coq_sources():
     return sorted(out)
 
 
-def forbidden_scan():
-    """Return list of (file, line, word) for forbidden constructs in the development."""
+def coq_closure(roots):
+    """Transitive closure of `From AV Require Import|Export A.B ...` from the given .v files (relative to coq/)."""
+    seen, todo = [], list(roots)
+    while todo:
+        rel = todo.pop()
+        if rel in seen or not os.path.exists(os.path.join(COQ, rel)):
+            continue
+        seen.append(rel)
+        txt = strip_coq_comments(open(os.path.join(COQ, rel), encoding='utf-8').read())
+        for m in re.finditer(r'From\s+AV\s+Require\s+(?:Import\s+|Export\s+)?(.*?)\.(?=\s|$)', txt, re.S):
+            for mod in m.group(1).split():
+                todo.append(mod.replace('.', '/') + '.v')
+        for m in re.finditer(r'(?<!AV\s)Require\s+(?:Import\s+|Export\s+)?(.*?)\.(?=\s|$)', txt, re.S):
+            for mod in m.group(1).split():
+                if mod.startswith('AV.'):
+                    todo.append(mod[3:].replace('.', '/') + '.v')
+    return sorted(seen)
+
+
+def forbidden_scan(files=None):
+    """Return list of (file, line, word) for forbidden constructs in the given files (default: all)."""
     bad = []
-    for rel in coq_sources():
+    for rel in (files if files is not None else coq_sources()):
         txt = open(os.path.join(COQ, rel), encoding='utf-8').read()
         # strip comments (nested) before scanning
         txt = strip_coq_comments(txt)
@@ -143,7 +162,7 @@ def forbidden_scan():
             if re.match(r'\s*(Variable|Variables|Hypothesis|Hypotheses|Context)\b', line):
                 # only allowed inside a Section: checked structurally below
                 pass
-    bad += toplevel_variables()
+    bad += toplevel_variables(files)
     return bad
 
 
@@ -173,9 +192,9 @@ def strip_coq_comments(txt):
     return ''.join(out)
 
 
-def toplevel_variables():
+def toplevel_variables(files=None):
     bad = []
-    for rel in coq_sources():
+    for rel in (files if files is not None else coq_sources()):
         txt = strip_coq_comments(open(os.path.join(COQ, rel), encoding='utf-8').read())
         depth = 0
         for i, line in enumerate(txt.split('\n'), 1):
@@ -329,7 +348,10 @@ class Ctx:
     # -- stage 2: prove ------------------------------------------------------------------------
     def prove(self, props_file=None, extra_targets=()):
         props_file = props_file or f'Props/{self.pid}.v'
-        bad = forbidden_scan()
+        roots = [props_file] + [f for f in coq_sources() if f.startswith(f'Corr/{self.pid}')]
+        closure = coq_closure(roots)
+        self.cov['coq_files'] = closure
+        bad = forbidden_scan(closure)
         if bad:
             self.broke('forbidden-constructs', json.dumps(bad[:10]))
             return False
@@ -347,7 +369,8 @@ class Ctx:
         with CoqLock():
             if os.path.exists(vo):
                 os.remove(vo)
-        rc, out = coq_make([props_file + 'o'] + list(extra_targets))
+        corr = [f + 'o' for f in roots[1:]]
+        rc, out = coq_make([props_file + 'o'] + corr + list(extra_targets))
         if rc != 0:
             self.cov['discharged'] = 0
             self.broke(f'proof:{props_file}', out)
